@@ -668,7 +668,7 @@ def project(F_from, proj_to):
                     proj_weights = cached_projection(proj_to,proj_from,hits)
                     F_proj += proj_weights * F_from[X1,X2]
         
-        return TriSpectrum(F_proj).fold()
+        return TriSpectrum(F_proj).fold_major()
 
 
 # Try importing cythonized versions of several slow methods. These imports should overwrite the Python code defined above.
